@@ -24,7 +24,7 @@ func (C08) Plan(tier string) core.Plan {
 
 func (C08) Info() core.Info {
 	return core.Info{
-		Rule:        "scope of the statement: converters with <=1 input (providers, chains of depth 1-4, cycles, bidirectional pairs), no subtype labels, every name denotes one type; targets with 1-3 parameters and 0-2 outputs; a PRNG-chosen subset of the needed values is supplied (named and type-only), some of them as NewFunc defaults of the target; sometimes two redefined functions are made from option lists sharing one backing array; input filters are PRNG-chosen subsets of the type pool (sometimes the unnamed type []uint64 while a parameter has the defined type B0 built on it) (raw func, FilterOr(FilterType...), FilterAnd), output filters likewise; history = Redefine, call of the result with a fresh token (sometimes the zero value) per declared input, sometimes a second Redefine with a different filter (filter flip) and its call. Oracle per successful Redefine: every declared input passes that call's input filter and is not a supplied value; the call of the result does not fail for lack of an argument, runs the original target once with C01-valid arguments and returns the target's own products; Redefine fails iff an output is rejected by the output filter (checked in the direction stated) and must succeed when every target parameter passes the input filter. Non-trivial: >=1 converter and an input filter; distinct = distinct (world shape, event-log hash)",
+		Rule:        "scope of the statement: converters with <=1 input (providers, chains of depth 1-4, cycles, bidirectional pairs), no subtype labels, every name denotes one type; targets with 1-3 parameters and 0-2 outputs; a PRNG-chosen subset of the needed values is supplied (named and type-only), some of them as NewFunc defaults of the target; sometimes two redefined functions are made from option lists sharing one backing array; input filters are PRNG-chosen subsets of the type pool (sometimes the unnamed type []uint64 while a parameter has the defined type B0 built on it) (raw func, FilterOr(FilterType...), FilterAnd), output filters likewise; history = Redefine, call of the result with a fresh token (sometimes the zero value) per declared input, sometimes a second Redefine with a different filter (filter flip) and its call. Oracle per successful Redefine: every declared input passes that call's input filter and is not a supplied value; the call of the result does not fail for lack of an argument, runs the original target once with C01-valid arguments and returns the target's own products; Redefine fails iff an output is rejected by the output filter (checked in the direction stated) and must succeed when every target parameter passes the input filter; targets with struct results (output filter judges the fields, including an error-typed field), interface-typed parameters with converters to an implementing type, filters made from an empty list. Non-trivial: >=1 converter and an input filter; distinct = distinct (world shape, event-log hash)",
 		Assumptions: []string{"a declared input 'is a supplied value' when its name and type (named) or its type (type-only) equal a supplied label"},
 		Probes:      []string{"c08_redefine_ok", "c08_redefine_failed", "c08_calls_of_redefined", "c08_chain_ge2", "c08_filter_excludes_param", "c08_output_filter_rejects", "c08_must_succeed", "c08_typed_supplied", "c08_zero_valued_inputs", "c08_target_defaults", "c08_shared_option_slice", "c08_defined_vs_unnamed_type_filter", "s1_nonidentity_perms"},
 		Real:        realComponents,
